@@ -121,6 +121,19 @@ def check_file(data, path, raw_timestamps=False, max_bad=3):
                     report('index-bounds', ['index', i], 'IndexError', repr(r[:2]))
     finally:
         lazy.close()
+    # the errors must reach the caller also when the file is used as a context manager (and from TdmsFile.read as well)
+    for mode, opener in (('lazy', H.TdmsFile.open), ('eager', H.TdmsFile.read)):
+        for what, fn, exc in (('index', lambda c: c[L], 'IndexError'), ('index', lambda c: c[-L - 1], 'IndexError'),
+                              ('step0', lambda c: c[::0], 'ValueError')):
+            nops += 1
+            try:
+                with opener(io.BytesIO(data), raw_timestamps=raw_timestamps) as tf2:
+                    fn(tf2[comps[0]][comps[1]])
+                got = 'no exception left the with-block'
+            except Exception as e:  # noqa
+                got = type(e).__name__
+            if got != exc:
+                bad.append((what + '-in-with-block', mode, ['with-block', what], exc, got))
     return nops, L, bad
 
 
